@@ -187,3 +187,20 @@ PROPS["C05"] = dict(
                  "zero-element destinations are exercised with fill / elements() only (the equal-extents premise cannot be constructed for collapsed shapes)",
                  "fill(value) on views of dimensionality >= 2 does not instantiate on the pinned tree and is exercised for 1-D views only"],
 )
+
+PROPS["C03"] = dict(
+    targets=[dict(name="C03", src="vp/props/C03.cpp", maxlen=15 + 4*5)],
+    quick=dict(cases=2000, floor=16000),
+    thorough=dict(cases=40000, floor=300000, fuzz=dict(time=300)),
+    level="exploration",
+    level_text=("Differential testing: one of the 20 listed standard algorithms is applied to the begin()/end() range (element iterators for 1-D views, proxy rows for 2-D views) or the elements() "
+                "range of a generated view over data with duplicates, and to a std::vector of independent values (ints, or vectors for rows); results, returned positions and -- where the "
+                "standard leaves freedom -- post-conditions are compared, the complement of the view in the root buffer must be unchanged; two-range algorithms use a second view of equal shape "
+                "and a different layout. Bounded exploration."),
+    technique="differential testing of standard algorithms on generated views vs independent std::vector values (rapidcheck + libFuzzer)",
+    rule=("case = root kind x D in 1..3 x extents 0..7, data from a 16-letter alphabet (4 comparison keys x 4 tags, so stability is observable) + up to 5 view operations (final rank <= 3) + algorithm + "
+          "range kind + parameters (middle, nth, threshold, value); oracle = same algorithm on the model sequence (sort, stable_sort(comp), rotate, reverse, unique, remove, copy, copy_backward, move, "
+          "swap_ranges, fill, transform, find, equal, is_sorted, accumulate, lexicographical_compare: exact; partial_sort: sorted prefix + permutation; nth_element, partition, sort(comp): "
+          "post-condition + permutation); non-trivial = range length >= 3, duplicates present, and the view is non-contiguous or the range yields proxy rows; distinct = hash of decoded case text"),
+    assumptions=COMMON_ASSUME + ["proxy-row ranges are exercised for views of rank 2 and 3 (rows are sub-views of rank 1 and 2)", "views with zero elements but a non-zero number of rows are skipped (collapsed shapes)"],
+)
